@@ -70,6 +70,7 @@ package cputensor
 //@   loop 0 invariant forall(k, 0, i, ite(k >= len(index) || isAll(index[k]), cidx[k].From == 0 && cidx[k].To == dims[k], cidx[k] == index[k]))
 
 //@ func CPUTensor.numElems
+//@   uses dimsLink
 //@   ensures[C06] n == prod(t.dims, 0, len(t.dims))
 //@   loop 0 invariant n == prod(t.dims, 0, _i0)
 
@@ -187,9 +188,11 @@ package cputensor
 //@   ensures value == tvar(t)
 
 //@ func CPUTensor.avg
+//@   uses dimsLink
 //@   requires preexisting(t)
 //@   ensures[C05] value == tsum(t) / real(nelems(t))
 //@ func CPUTensor.mean
+//@   uses dimsLink
 //@   requires preexisting(t)
 //@   ensures[C05] value == tsum(t) / real(nelems(t))
 //@ func CPUTensor.std
@@ -215,11 +218,13 @@ package cputensor
 //@   ensures forallJ(J, imp(inb(o, J), el(o, J) == ite(forall(k, 0, rank(u), index[k].From <= J[k] && J[k] < index[k].To), el(u, subFrom(J, index)), el(t, J))))
 
 //@ func CPUTensor.slice
+//@   uses dimsLink
 //@   requires preexisting(t) && sliceOK(index, t)
 //@   returns fresh
 //@   ensures[C06] o != nil && sliceShape(o, t, index) && forallJ(J, imp(inb(o, J), el(o, J) == el(t, addFrom(J, index))))
 
 //@ func CPUTensor.patch
+//@   uses dimsLink
 //@   requires preexisting(t) && u != nil && preexisting(u) && patchOK(index, u, t)
 //@   returns fresh
 //@   ensures[C06] o != nil && sameShape(o, t)
@@ -251,16 +256,19 @@ package cputensor
 //@   ensures o != nil && hasShape(o, shape) && forallJ(J, imp(inb(o, J), el(o, J) == el(t, proj(t, o, J))))
 
 //@ func CPUTensor.unSqueeze
+//@   uses dimsLink
 //@   requires preexisting(t) && 0 <= dim && dim <= rank(t)
 //@   returns fresh
 //@   ensures[C06] o != nil && unsqShape(o, t, dim) && nelems(o) == nelems(t) && forall(p, 0, nelems(t), flat(o, p) == flat(t, p))
 
 //@ func CPUTensor.squeeze
+//@   uses dimsLink
 //@   requires preexisting(t) && 0 <= dim && dim < rank(t) && dim(t, dim) == 1
 //@   returns fresh
 //@   ensures[C06] o != nil && redShape(o, t, dim) && nelems(o) == nelems(t) && forall(p, 0, nelems(t), flat(o, p) == flat(t, p))
 
 //@ func CPUTensor.flatten
+//@   uses dimsLink
 //@   requires preexisting(t) && 0 <= fromDim && fromDim < rank(t)
 //@   returns fresh
 //@   ensures[C06] o != nil && rank(o) == fromDim + 1 && forall(k, 0, fromDim, dim(o, k) == dim(t, k))
@@ -333,7 +341,7 @@ package cputensor
 //@ func broadcastForBinaryOp
 //@   requires tinv(ct1) && tinv(ct2) && preexisting(ct1) && preexisting(ct2)
 //@   returns fresh
-//@   uses btargetCompat1, btargetCompat2, btargetCompat3, btargetShape
+//@   uses dimsLink, btargetCompat1, btargetCompat2, btargetCompat3, btargetShape
 //@   ensures[C03,C07] iff(err == nil, bcompat(ct1, ct2))
 //@   ensures[C03,C07] imp(err == nil, bct1 != nil && bct2 != nil && bshape(bct1, ct1, ct2) && sameShape(bct1, bct2))
 //@   ensures[C03,C07] imp(err == nil, forallJ(J, imp(inb(bct1, J), el(bct1, J) == el(ct1, proj(ct1, bct1, J)) && el(bct2, J) == el(ct2, proj(ct2, bct2, J)))))
